@@ -26,6 +26,13 @@ def facts(res, harness):
     for row in r["facts"].get("globalwrites") or []:
         res.violation("package-level variable %s of package %s is written in %s (printers run unlocked on many goroutines): %s" % (row["var"], row["pkg"], row["func"], row["stmt"]),
                       {"ops": [], "fact": row, "replay_hint": "cd /verif/harness && ./bin/harness facts | jq .globalwrites"})
+    # a printing method that stores into its receiver races with every concurrent printer of the same object (same regenerated fact as C14's
+    # `observers_do_not_store`; the lazily filled `Typ` caches and the refreshed `Successors` are the audited exceptions)
+    for row in r["facts"].get("observerwrites") or []:
+        if (row["method"] == "Succs" and row["field"] == "Successors") or row["type"] == "fmtWriter":
+            continue
+        res.violation("(%s).%s in package %s stores into its receiver's field %s (line %d): printers run unlocked on many goroutines, a store while printing is a data race" %
+                      (row["type"], row["method"], row["pkg"], row["field"], row["line"]), {"ops": [], "fact": row, "replay_hint": "cd /verif/harness && ./bin/harness facts | jq .observerwrites"})
     return {"lock_facts": r["facts"]["lock"], "cache_writers": len(r["facts"]["typecache"].get("cacheWriters") or []),
             "package_level_writes": r["facts"].get("globalwrites") or [],
             "facts_regenerated_changed": r["facts_regenerated_changed"]}
@@ -37,7 +44,7 @@ def gen(tier, rng, harness=None):
     from . import modprops, catalog
     from .modprops import hx
     lines = ["!conc.readonly %s" % hx(t) for t in modprops.corpus_texts()]
-    for _, text, _ in catalog.STRUCTURED + catalog.NAMED_NONSTRUCT + catalog.inst_entries() + catalog.DI:
+    for _, text, _ in catalog.STRUCTURED + catalog.NAMED_NONSTRUCT + catalog.inst_entries() + catalog.DI + catalog.flag_cross_entries() + catalog.addrspace_cross_entries():
         lines.append("!conc.readonly %s" % hx(text))
     for m, text, sk in modprops.gen_modules(rng, 60 if tier == "quick" else 3000):
         lines.append("!conc.readonly %s" % hx(text))
